@@ -143,6 +143,15 @@ fn c14_systematic() -> Vec<Layout> {
             let mut inter = coll.clone();
             inter.array = Some(ArrayDecl { count: 2, stride: Some(2), colon: false });
             v.push(lay(b, vec![inter])); // interleaves without collision
+            // a read-only field whose list names bits twice, next to complete writable coverage: it is not
+            // writable, so it must not take the builder away
+            let ro_so = Field { name: "ro".into(), kw_bit: false, list: true, ranges: vec![Rng::new(0, 3), Rng::new(0, 3)], array: None, ty: uty(8), access: Access::R, arg_order: 0, opt_path: 0, huge: None };
+            v.push(lay(b, vec![fld("all", 0, b, uty(b), Access::RW), ro_so.clone()]));
+            v.push(lay(b, vec![ro_so.clone(), fld("all", 0, b, uty(b), Access::RW)]));
+            let mut ro_arr = Field { name: "roa".into(), kw_bit: false, list: true, ranges: vec![Rng::new(0, 1), Rng::new(4, 5)], array: Some(ArrayDecl { count: 2, stride: Some(4), colon: false }), ty: uty(4), access: Access::None, arg_order: 0, opt_path: 0, huge: None };
+            v.push(lay(b, vec![fld("all", 0, b, uty(b), Access::W), ro_arr.clone()]));
+            ro_arr.access = Access::R;
+            v.push(lay(b, vec![ro_arr, fld("lo", 0, b / 2, uty(b / 2), Access::RW), fld("hi", b / 2, b - b / 2, uty(b - b / 2), Access::RW)]));
             // single repeated bit
             let rep = Field { name: "x".into(), kw_bit: false, list: true, ranges: vec![Rng::bit(3), Rng::new(0, 1), Rng::bit(3)], array: None, ty: uty(4), access: Access::RW, arg_order: 0, opt_path: 0, huge: None };
             v.push(lay(b, vec![rep]));
